@@ -16,8 +16,26 @@
     C08_delay_encoding, C08_no_overflow, C08_no_indeterminate_byte, C08_eof_offset,
     C08_stream_parses, C08_sample_total_header, C08_gd3_offset, C08_loop_consistent,
     C08_gd3_eleven_strings, C08_clocks_declared, C08_pcm_stream_in_block.
+
+  GD3 text (model decoder `utf8ToUtf16` against the reader-side `utf8OfUnits`, Proofs/Utf8.lean):
+    C08_utf8_decode_encode, C08_utf16_encode_decode, C08_utf8_valid_tag, C08_utf8_decoder_scalars,
+    C08_gd3_renders_tag.
+
+  Whole songs (`Platform::vgm_export` + `MD_Driver` + `get_tags`, Model/MdDriver.lean incl. PCM
+  instruments; helper lemmas Proofs/MdExport.lean, Proofs/VgmPcm.lean, Proofs/VgmTagErr.lean):
+    C08_invalid_tag_range_error, C08_md_export_hyps (every run of the exporter model satisfies the
+    side conditions `ExportHyps` of the writer-level theorems, incl. clock pokes and PCM windows),
+    C08_full_partial (the property for every song; extra hypotheses: allocator invariant of the
+    wave bank, file < 4 GiB), C08_pcm_windows_are_samples, C08_full_for_reachable_banks (the same for
+    every bank reachable in the sense of C14, with the window contents), C08_full_for_built_banks (the same for
+    every bank `read_song` builds from WAV files below 1 GiB: no hypothesis on the bank left),
+    C08_pcm_offset_regression (the former D11 case on the repaired model), `def C08_full_statement`.
 -/
 import Ctrmml.Proofs.VgmInv
+import Ctrmml.Proofs.Utf8
+import Ctrmml.Proofs.VgmTagErr
+import Ctrmml.Proofs.MdExport
+import Ctrmml.Properties.C14
 namespace Ctrmml.Vgm
 open Ctrmml Ctrmml.VgmSpec
 
@@ -245,11 +263,512 @@ example : ClockPoked mdPokes 0x0c := ⟨[(0x2c, le32 7670454)], 3579575, _, rfl,
 example : xsPcm 0 exXs = true := by decide
 example : loopD 0 none exXs = some 0 := by decide
 
-/-- Every clause of DESIGN §6 C08 is a theorem above; nothing is left to this statement.  (It
-is kept, trivially true, so that the audit shows the full statement shrank to nothing.)  Not
-theorems, by design: the UTF-16 strings are tied to the tags through the model's decoder
-(`gd3Units`); that the decoder inverts the reader-side encoder `utf8OfUnits`, and the clock and
-PCM clauses for whole songs (MD_Driver), rest on the spec oracle. -/
-def C08_full_statement : Prop := True
+/-! ### GD3 text: the decoder of the writer against the reader-side encoder -/
+
+/-- utf8_decode_encode: the writer's UTF-8 → UTF-16 decoder inverts the reader-side encoder
+`utf8OfUnits` on EVERY list of 16-bit code units (`units16`, decidable): BMP values, surrogate
+pairs and — the decoder being as lenient as libstdc++ — even unpaired surrogates. -/
+theorem C08_utf8_decode_encode (us : List Nat) (h : units16 us = true) :
+    utf8ToUtf16 (utf8OfUnits us) = .ok us :=
+  decode_utf8OfUnits us (by
+    intro u hu
+    have := List.all_eq_true.mp h u hu
+    simpa using this)
+
+example : units16 [0x41, 0xD83D, 0xDE00, 0x3042, 0xDC00, 0xD800] = true := by decide
+example : utf8OfUnits [0x41, 0xD83D, 0xDE00, 0x3042] = [0x41, 0xf0, 0x9f, 0x98, 0x80, 0xe3, 0x81, 0x82] := by decide
+
+/-- utf16_encode_decode: on every WELL-FORMED UTF-16 string (`wfUtf16`, decidable: 16-bit units,
+every surrogate half of a high–low pair) the reader-side encoder produces well-formed UTF-8
+(`validUtf8`) and the writer's decoder gives the string back: with `C08_utf8_valid_tag` the two
+are mutually inverse bijections between well-formed UTF-8 and well-formed UTF-16, both denoting
+the same scalar values. -/
+theorem C08_utf16_encode_decode (us : List Nat) (h : wfUtf16 us = true) :
+    validUtf8 (utf8OfUnits us) = true ∧ utf8ToUtf16 (utf8OfUnits us) = .ok us ∧
+    (∀ cp ∈ scalarsOfUnits us, isScalar cp = true) ∧ utf8OfUnits us = utf8OfScalars (scalarsOfUnits us) :=
+  ⟨valid_utf8OfUnits us h, C08_utf8_decode_encode us (wf_units16 us h), scalars_of_wf us h, utf8OfUnits_eq us⟩
+
+example : wfUtf16 [0x41, 0xD83D, 0xDE00, 0x3042, 0xFFFF] = true ∧ wfUtf16 [0xDC00, 0xD800] = false ∧ wfUtf16 [0xD800] = false := by decide
+
+/-- utf8_valid_tag: every well-formed UTF-8 string (`validUtf8`, Unicode table 3-7) is the UTF-8
+form of a list `cps` of Unicode scalar values; the decoder succeeds on it, yields exactly the
+UTF-16 forms of those scalar values — a well-formed UTF-16 string (`wfUtf16`, decidable) — and
+the string read back (UTF-16 → scalar values, UTF-16 → UTF-8) is the original. -/
+theorem C08_utf8_valid_tag (b : Bytes) (h : validUtf8 b = true) :
+    ∃ cps us, (∀ cp ∈ cps, isScalar cp = true) ∧ b = utf8OfScalars cps ∧ utf8ToUtf16 b = .ok us ∧
+      us = cps.flatMap utf16OfScalar ∧ wfUtf16 us = true ∧ scalarsOfUnits us = cps ∧ utf8OfUnits us = b := by
+  obtain ⟨cps, hs, rfl⟩ := validAs_of_valid b h
+  have hlt : ∀ cp ∈ cps, cp < 0x110000 := fun cp hc => ((isScalar_iff cp).mp (hs cp hc)).1
+  refine ⟨cps, _, hs, rfl, decode_utf8OfScalars cps hlt, rfl, wfUtf16_utf16 cps hs, scalarsOfUnits_utf16 cps hs, ?_⟩
+  rw [utf8OfUnits_eq, scalarsOfUnits_utf16 cps hs]
+
+example : validUtf8 [0x41, 0xf0, 0x9f, 0x98, 0x80, 0xe3, 0x81, 0x82, 0xc3, 0xa9] = true := by decide
+
+/-- utf8_decoder_scalars (converse direction, for EVERY byte string the decoder accepts, not
+only well-formed ones): the bytes are the UTF-8 forms of code points `cps` (each below
+0x110000; 3-byte encoded surrogates are let through) followed by an incomplete sequence of at
+most 3 bytes that is dropped; the code units are exactly the UTF-16 forms of `cps`, all 16-bit.
+If no code point is a surrogate, the UTF-16 string decodes back to exactly `cps` and re-encodes
+to exactly the accepted bytes. -/
+theorem C08_utf8_decoder_scalars (b : Bytes) (us : List Nat) (h : utf8ToUtf16 b = .ok us) :
+    ∃ cps tail, b = utf8OfScalars cps ++ tail ∧ tail.length ≤ 3 ∧ utf8ToUtf16 tail = .ok [] ∧
+      us = cps.flatMap utf16OfScalar ∧ (∀ cp ∈ cps, cp < 0x110000) ∧
+      ((∀ cp ∈ cps, isScalar cp = true) → scalarsOfUnits us = cps ∧ utf8OfUnits us = utf8OfScalars cps) := by
+  obtain ⟨cps, tail, h1, h2, h3, h4, h5⟩ := decodedAs_of_decode b us h
+  refine ⟨cps, tail, h1, h2, h3, h4, h5, fun hs => ?_⟩
+  rw [h4, utf8OfUnits_eq, scalarsOfUnits_utf16 cps hs]
+  exact ⟨rfl, rfl⟩
+
+example : utf8ToUtf16 [0x41, 0xe3, 0x81] = .ok [0x41] := rfl
+example : utf8ToUtf16 [0xed, 0xa0, 0x80] = .ok [0xD800] := rfl
+
+/-- gd3_renders_tag: for every tag whose C string is well-formed UTF-8, `add_gd3` succeeds and
+the stored code units render the tag in the reader's sense (`rendersTag`, the definition the
+spec oracle applies to real files): re-encoded to UTF-8 they ARE the tag, or — when the tag has
+more than 256 code units — they are exactly 256 units whose UTF-8 form (minus a high surrogate
+cut off at the cap) is a prefix of the tag. -/
+theorem C08_gd3_renders_tag (t : Bytes) (h : validUtf8 (cstr t) = true) :
+    Decodable t ∧ rendersTag gd3MaxUnits (gd3Units t) (cstr t) = true := by
+  obtain ⟨cps, us, hs, hb, hd, hus, _, _, hre⟩ := C08_utf8_valid_tag (cstr t) h
+  refine ⟨⟨us, hd⟩, ?_⟩
+  unfold gd3Units
+  rw [hd]
+  simp only []
+  unfold rendersTag
+  by_cases hl : us.length ≤ gd3MaxUnits
+  · rw [List.take_of_length_le hl, hre]; simp
+  · split
+    · rfl
+    · have hlen : (us.take gd3MaxUnits).length = gd3MaxUnits := by rw [List.length_take]; omega
+      rw [if_pos (by simp [hlen])]
+      have := take_prefix cps hs gd3MaxUnits
+      rw [← hus, ← hb] at this
+      simp only [List.isPrefixOf_iff_prefix]
+      exact this
+
+example : validUtf8 (cstr exTags.system) = true := by decide
+
+/-! ### Whole songs: `Platform::vgm_export` + `MD_Driver` (Model/MdDriver.lean) -/
+open MdDriver in
+theorem mdPokes_eq : mdPokes = hdrPokes := rfl
+
+/-- invalid_tag_range_error: if some tag does not decode, the export — whatever the operations
+were — ends in `std::range_error` thrown by `write_tag`, and in nothing else: every step up to
+and including `stop` succeeds (no overflow, no fault), `write_tag` is what fails. -/
+theorem C08_invalid_tag_range_error (version H : Nat) (pokes : List (Nat × Bytes)) (xs : List XOp) (tags : Tags)
+    (h38 : 0x38 ≤ H) (hA : H ≤ initialAlloc) (hpokes : ∀ p ∈ pokes, SafeOff H p.1 p.2.length)
+    (hvalid : ∀ x ∈ xs, x.valid) (hdelays : (xs.map XOp.delayOf).sum < 2147483648)
+    (hbad : ∃ t ∈ tags.toList, ¬ Decodable t) :
+    run version H (exportOps pokes xs tags) = .error .rangeError :=
+  export_bad_tag version H pokes xs tags h38 hA hpokes hvalid hdelays hbad
+
+example : ¬ Decodable [0x41, 0xff] := by
+  intro ⟨us, h⟩
+  have : utf8ToUtf16 (cstr [0x41, 0xff]) = .error .rangeError := rfl
+  rw [this] at h; cases h
+
+open MdDriver in
+/-- md_export_hyps (goal: the operation sequence the real exporter produces satisfies the side
+conditions of the writer-level theorems).  For EVERY instrument data `d` whose wave bank keeps
+its sample windows inside the used rom (`BankOK`; implied by the allocator invariant of C14,
+`bankOK_of_inv`), every song and all tags: if the model of `vgm_export` + `MD_Driver` completes
+(`exportOps … = .ok ops`: no player error, the song ends or loops within the hour), then `ops` is
+an exporter operation sequence `exportOps mdPokes xs tags` where
+ * the pokes are the `MD_Driver` constructor's and declare both clocks (`ClockPoked` 0x0c, 0x2c);
+ * `xs` starts with ONE type-0 data block holding the used part of the wave rom and the DAC
+   stream setup, and contains no other data block;
+ * every stream start of `xs` plays (start, length) = the window `position + start`, `size` of
+   the sample header `wave_map` assigns to a PCM instrument (`IsPcmSample`), and addresses bytes
+   of that block (`xsPcm 0 xs`);
+ * all side conditions of `ExportHyps` other than "the tags decode" hold — so `ExportHyps` holds
+   exactly when every tag decodes. -/
+theorem C08_md_export_hyps (d : Data) (song : Song) (tags : Tags) (ops : List Op) (hb : BankOK d)
+    (h : MdDriver.exportOps d song tags = .ok ops) :
+    ∃ xs rest, ops = exportOps mdPokes xs tags ∧
+      xs = XOp.datablock 0 (pcmBlock d) d.bank.rom.length 0 :: XOp.dacSetup 0 2 0 0x2a 0 :: rest ∧
+      (∀ x ∈ rest, ∀ t p m o, x ≠ XOp.datablock t p m o) ∧
+      (∀ q ∈ xStarts rest, ∃ s, IsPcmSample d s ∧
+        q = (Wave.u32 (s.position + s.start) % 4294967296, s.size % 4294967296)) ∧
+      ClockPoked mdPokes 0x0c ∧ ClockPoked mdPokes 0x2c ∧ xsPcm 0 xs = true ∧
+      ((∀ t ∈ tags.toList, Decodable t) → ExportHyps 0x100 mdPokes xs tags) ∧
+      ((∃ t ∈ tags.toList, ¬ Decodable t) → run 0x61 0x100 ops = .error .rangeError) := by
+  obtain ⟨rest, hops, hv, hd, hp, hnb, _, hst⟩ := exportOps_x d song tags ops hb h
+  have hvalid : ∀ x ∈ XOp.datablock 0 (pcmBlock d) d.bank.rom.length 0 :: XOp.dacSetup 0 2 0 0x2a 0 :: rest, x.valid := by
+    intro x hx
+    rcases List.mem_cons.mp hx with rfl | hx
+    · refine ⟨by decide, ?_⟩
+      have := hb.small
+      rw [pcmBlock_length]
+      unfold used; omega
+    · rcases List.mem_cons.mp hx with rfl | hx
+      · trivial
+      · exact hv x hx
+  have hdel : ((XOp.datablock 0 (pcmBlock d) d.bank.rom.length 0 :: XOp.dacSetup 0 2 0 0x2a 0 :: rest).map XOp.delayOf).sum < 2147483648 := by
+    simpa [XOp.delayOf] using hd
+  have hpk : ∀ p ∈ mdPokes, SafeOff 0x100 p.1 p.2.length := by
+    simp [mdPokes, Tables.md_vgm_pokes, SafeOff, le16]
+  refine ⟨_, rest, hops, rfl, hnb, hst, ⟨[(0x2c, le32 7670454)], 3579575, _, rfl, by decide, by simp [le16]⟩,
+    ⟨[], 7670454, _, rfl, by decide, by simp [le16]⟩, ?_, ?_, ?_⟩
+  · simp only [xsPcm, if_true, Nat.zero_add, pcmBlock_length]; exact hp
+  · intro htags
+    exact { h38 := by decide, hA := by decide, pokes := hpk, valid := hvalid, delays := hdel, tags := htags }
+  · intro hbad
+    rw [hops]
+    exact export_bad_tag 0x61 0x100 mdPokes _ tags (by decide) (by decide) hpk hvalid hdel hbad
+
+open MdDriver in
+/-- the side conditions are met by the empty instrument data (fresh wave bank) -/
+example : BankOK ({ ins := [] } : Data) :=
+  bankOK_of_inv _ [] (Wave.inv_new Tables.mds_dataWaveRom 0 (by decide) (by decide) (by decide))
+
+/-- the eleven GD3 strings render the eleven tags -/
+def TagsRendered (strs : List (List Nat)) (tags : Tags) : Prop :=
+  strs.length = 11 ∧ ∀ (i : Nat) (s : List Nat) (t : Bytes), strs[i]? = some s → tags.toList[i]? = some t →
+    validUtf8 (cstr t) = true → rendersTag gd3MaxUnits s (cstr t) = true
+
+open MdDriver in
+/-- **C08 over the model, for every song** (partial: two extra hypotheses w.r.t.
+`C08_full_statement`, named after the statement).  Let `d` be instrument data
+whose wave bank satisfies the allocator invariant (`Wave.Inv`: C14 proves it for every bank
+built from a new bank by additions), `song` any song, `m` its tag map, `st` the wall
+clock / build stamp strings; `tags = finalTags m st` are the eleven strings `get_tags` +
+`write_tag` produce.  Then for `exportSong d song m st` (= `Platform::get_export_data(song, 0)`):
+ 1. if the player/driver part fails (player error, unsupported event, song longer than an hour:
+    `exportOps … = .error e`) that error is the outcome;
+ 2. if it completes (`exportOps … = .ok`), the outcome is decided by the tags alone — a file if
+    every tag decodes, `InputError` if some tag is not decodable UTF-8 — and never a fault of
+    the writer (heap overflow, indeterminate byte, delay overflow, poke outside the buffer);
+ 3. every file it returns (shorter than 4 GiB, the range of the 32-bit offset fields) is
+    `WellFormed`: magic, EOF offset, data offset 0x100, the stream parses as defined commands up
+    to the end marker, header total = sum of the waits, loop offset on a command boundary with
+    loop samples = waits from there to the end (or both zero), GD3 offset exact, the clocks of
+    SN76489 and YM2612 — the only chips written to — declared, every PCM stream start inside the
+    data block, and the GD3 block splits into exactly eleven terminated strings: the decoded
+    tags cut at 256 units, each of which renders its tag (`rendersTag`: re-encoded to UTF-8 it IS
+    the tag, or a 256-unit prefix of it) whenever the tag is well-formed UTF-8.
+Extra hypotheses w.r.t. `C08_full_statement`: (i) `Wave.Inv d.bank rs` in place of "the bank was
+built by `add_sample(Tag)` calls on a new bank" — discharged by `C08_full_for_built_banks` for every
+bank built from WAV files below 1 GiB (`bankBuilt_inv`; the bound is that of C14's bank theorems)
+and by `C08_full_for_reachable_banks` for every bank reachable in C14's sense; before the repair
+of D11 (repository commit e0c1e8f) it was false for an `offset=` on freshly placed data,
+`C08_pcm_offset_regression`; (ii) `f.length < 2^32` for clause 3 (the offset fields are 32 bits
+wide; no bound on the number of writes of a song is proved). -/
+theorem C08_full_partial (d : Data) (song : Song) (m : TagMap) (st : Stamps) (rs : List Alloc.Win)
+    (hbank : Wave.Inv d.bank rs) :
+    (∀ e, MdDriver.exportOps d song (finalTags m st) = .error e → exportSong d song m st = .error e) ∧
+    (∀ ops, MdDriver.exportOps d song (finalTags m st) = .ok ops →
+      ((∀ t ∈ (finalTags m st).toList, Decodable t) → ∃ f, exportSong d song m st = .ok f) ∧
+      ((∃ t ∈ (finalTags m st).toList, ¬ Decodable t) → exportSong d song m st = .error .input)) ∧
+    (∀ f, exportSong d song m st = .ok f → f.length < 4294967296 →
+      dataStart f = 0x100 ∧ WellFormed f ((finalTags m st).toList.map gd3Units) ∧
+      TagsRendered ((finalTags m st).toList.map gd3Units) (finalTags m st)) := by
+  have hb := bankOK_of_inv d rs hbank
+  unfold exportSong
+  generalize finalTags m st = tags
+  -- the outcome of the export in terms of the operation list
+  have key : ∀ ops, MdDriver.exportOps d song tags = .ok ops →
+      ((∀ t ∈ tags.toList, Decodable t) → ∃ xs f, ops = exportOps mdPokes xs tags ∧ ExportHyps 0x100 mdPokes xs tags ∧
+          xsPcm 0 xs = true ∧ run 0x61 0x100 ops = .ok f ∧ exportVgm d song tags = .ok f) ∧
+      ((∃ t ∈ tags.toList, ¬ Decodable t) → exportVgm d song tags = .error .input) := by
+    intro ops hops
+    obtain ⟨xs, rest, e1, _, _, _, _, _, hpcm, hy, hbad⟩ := C08_md_export_hyps d song tags ops hb hops
+    constructor
+    · intro ht
+      obtain ⟨f, hf⟩ := C08_no_indeterminate_byte 0x61 (hy ht)
+      refine ⟨xs, f, e1, hy ht, hpcm, by rw [e1]; exact hf, ?_⟩
+      unfold exportVgm
+      rw [hops]
+      simp only
+      have : run Tables.vgm_export_version Tables.vgm_export_header_size ops = .ok f := by rw [e1]; exact hf
+      rw [this]
+    · intro hb'
+      unfold exportVgm
+      rw [hops]
+      simp only
+      have : run Tables.vgm_export_version Tables.vgm_export_header_size ops = .error .rangeError := hbad hb'
+      rw [this]
+  have dec_or : (∀ t ∈ tags.toList, Decodable t) ∨ (∃ t ∈ tags.toList, ¬ Decodable t) := by
+    rcases Classical.em (∀ t ∈ tags.toList, Decodable t) with h | h
+    · exact Or.inl h
+    · right
+      exact Classical.byContradiction fun hn => h fun t ht => Classical.byContradiction fun hd => hn ⟨t, ht, hd⟩
+  refine ⟨?_, ?_, ?_⟩
+  · intro e he
+    unfold exportVgm
+    rw [he]
+  · intro ops hops
+    obtain ⟨k1, k2⟩ := key ops hops
+    exact ⟨fun h => by obtain ⟨_, f, _, _, _, _, hf⟩ := k1 h; exact ⟨f, hf⟩, k2⟩
+  · intro f hf hl
+    cases hops : MdDriver.exportOps d song tags with
+    | error e' => unfold exportVgm at hf; rw [hops] at hf; cases hf
+    | ok ops =>
+      obtain ⟨k1, k2⟩ := key ops hops
+      rcases dec_or with h | h
+      · obtain ⟨xs, f', e1, hy, hpcm, hrun, hf'⟩ := k1 h
+        rw [hf'] at hf
+        cases hf
+        rw [e1] at hrun
+        have s1 := C08_eof_offset hy hrun hl
+        have s2 := C08_stream_parses hy hrun
+        have s3 := C08_sample_total_header hy hrun
+        have s4 := C08_gd3_offset hy hrun hl
+        have s5 := C08_loop_consistent hy hrun hl
+        have s6 := C08_gd3_eleven_strings hy
+        have s7 := C08_clocks_declared hy hrun ⟨[(0x2c, le32 7670454)], 3579575, _, rfl, by decide, by simp [le16]⟩
+          ⟨[], 7670454, _, rfl, by decide, by simp [le16]⟩
+        have s8 := C08_pcm_stream_in_block hy hrun hpcm
+        refine ⟨s2.1, ⟨s1.1, s1.2, expected 0 xs, gd3Tail tags, s2.2, s3.1, s5.1, s4, s7, s8.2, s6.1⟩, s6.2, ?_⟩
+        intro i s t hs ht hv
+        rw [List.getElem?_map, ht] at hs
+        simp only [Option.map_some, Option.some.injEq] at hs
+        subst hs
+        exact (C08_gd3_renders_tag t hv).2
+      · rw [k2 h] at hf; cases hf
+
+/-! ### Non-vacuity of the song-level theorems: a PCM instrument on FM channel 6 -/
+open MdDriver in
+/-- wave bank of 64 bytes holding one 4-byte sample (8000 Hz) -/
+def exPcmBank : Wave.Bank :=
+  match Wave.addSample (Wave.Bank.new 64 0) ⟨0, 0, 4, 0, 0, 8000, 0, 0⟩ [1, 2, 3, 4] with
+  | .ok (b, _) => b
+  | .error _ => Wave.Bank.new 0 0
+
+open MdDriver in
+def exPcmData : Data :=
+  { ins := [(30, { type := Tables.mdsdrv_INS_PCM, data := [], transpose := 0 })], bank := exPcmBank, waveMap := [(30, 0)] }
+
+/-- `F @30 c r`: instrument 30, a note, a rest -/
+def exPcmSong : Song :=
+  { tracks := [(5, [⟨Tables.ev_INS, 30, 0, 0⟩, ⟨Tables.ev_NOTE, 40, 6, 2⟩, ⟨Tables.ev_REST, 0, 0, 4⟩])] }
+
+/-- the hypothesis of `C08_full_partial` / `C08_pcm_windows_are_samples` holds for this bank (C14's step lemma) -/
+theorem C08_example_pcm_bank : ∃ rs, Wave.Inv exPcmData.bank rs :=
+  ⟨_, (Wave.addSample_step (Wave.Bank.new 64 0) [] ⟨0, 0, 4, 0, 0, 8000, 0, 0⟩ [1, 2, 3, 4] exPcmBank 0
+    (Wave.inv_new 64 0 (by decide) (by decide) (by decide)) ⟨by decide⟩ rfl).inv⟩
+
+open MdDriver in
+/-- the driver part completes and the operation list really holds the data block, a stream
+start over the sample's window and the stop that follows it -/
+theorem C08_example_pcm_ops : (match MdDriver.exportOps exPcmData exPcmSong (finalTags [("#title", [[0x41]])] ⟨[0x32], [0x6e]⟩) with
+    | .ok ops => (ops.any fun o => match o with | .dacStart 0 0 4 8000 => true | _ => false) &&
+                 (ops.any fun o => match o with | .dacStop 0 => true | _ => false) &&
+                 (ops.any fun o => match o with | .datablock 0 [1, 2, 3, 4] 64 0 0 => true | _ => false)
+    | .error _ => false) = true := by decide +kernel
+
+open MdDriver in
+/-- hence (`C08_full_partial`, clause 2) the whole export of this song returns a file … -/
+example : ∃ f, exportSong exPcmData exPcmSong [("#title", [[0x41]])] ⟨[0x32], [0x6e]⟩ = .ok f := by
+  obtain ⟨rs, hinv⟩ := C08_example_pcm_bank
+  have hok := C08_example_pcm_ops
+  cases hops : MdDriver.exportOps exPcmData exPcmSong (finalTags [("#title", [[0x41]])] ⟨[0x32], [0x6e]⟩) with
+  | error e => rw [hops] at hok; cases hok
+  | ok ops =>
+    refine ((C08_full_partial exPcmData exPcmSong _ _ rs hinv).2.1 ops hops).1 ?_
+    have e : (finalTags [("#title", [[0x41]])] ⟨[0x32], [0x6e]⟩).toList = [[0x41], [], [], [], [], [], [], [], [0x32], [], [0x6e]] := by
+      decide +kernel
+    rw [e]
+    intro t ht
+    simp at ht
+    rcases ht with rfl | rfl | rfl | rfl | rfl <;> exact ⟨_, rfl⟩
+
+open MdDriver in
+/-- … and with an undecodable `#title` it is an input error -/
+example : exportSong exPcmData exPcmSong [("#title", [[0xff]])] ⟨[0x32], [0x6e]⟩ = .error .input := by
+  obtain ⟨rs, hinv⟩ := C08_example_pcm_bank
+  have hok : (match MdDriver.exportOps exPcmData exPcmSong (finalTags [("#title", [[0xff]])] ⟨[0x32], [0x6e]⟩) with
+      | .ok _ => true | .error _ => false) = true := by decide +kernel
+  cases hops : MdDriver.exportOps exPcmData exPcmSong (finalTags [("#title", [[0xff]])] ⟨[0x32], [0x6e]⟩) with
+  | error e => rw [hops] at hok; cases hok
+  | ok ops =>
+    refine ((C08_full_partial exPcmData exPcmSong _ _ rs hinv).2.1 ops hops).2 ⟨[0xff], ?_, ?_⟩
+    · have e : (finalTags [("#title", [[0xff]])] ⟨[0x32], [0x6e]⟩).toList = [[0xff], [], [], [], [], [], [], [], [0x32], [], [0x6e]] := by
+        decide +kernel
+      rw [e]; simp
+    · intro ⟨us, h⟩
+      have : utf8ToUtf16 (cstr [0xff]) = .error .rangeError := rfl
+      rw [this] at h; cases h
+
+open MdDriver in
+/-- pcm_windows_are_samples: in every file the export returns, the data bank a reader assembles
+is exactly the block `play_song` wrote (the used part of the wave rom), and every stream-start
+command addresses in it exactly the bytes `rom[position + start ..][.. size]` of the sample header
+that `wave_map` assigns to a PCM instrument of the song — the window whose content C14
+(`C14_inv_histories`, `C14_tag_window`) proves to be the instrument's sample. -/
+theorem C08_pcm_windows_are_samples (d : Data) (song : Song) (tags : Tags) (f : Bytes) (rs : List Alloc.Win)
+    (hbank : Wave.Inv d.bank rs) (h : exportVgm d song tags = .ok f) :
+    ∃ cs tail, streamIs f cs tail ∧ bankOf cs = pcmBlock d ∧
+      ∀ w ∈ streamWindows cs, ∃ s, IsPcmSample d s ∧ w = (Wave.Sample.win s).reads d.bank.rom := by
+  have hb := bankOK_of_inv d rs hbank
+  cases hops : MdDriver.exportOps d song tags with
+  | error e' => unfold exportVgm at h; rw [hops] at h; cases h
+  | ok ops =>
+    obtain ⟨xs, rest, e1, hxs, hnb, hst, _, _, _, hy, hbad⟩ := C08_md_export_hyps d song tags ops hb hops
+    have hrun : run 0x61 0x100 ops = .ok f := by
+      unfold exportVgm at h
+      rw [hops] at h
+      simp only at h
+      have e : run 0x61 0x100 ops = run Tables.vgm_export_version Tables.vgm_export_header_size ops := rfl
+      rw [e]
+      cases hr : run Tables.vgm_export_version Tables.vgm_export_header_size ops with
+      | error e => rw [hr] at h; cases e <;> cases h
+      | ok b => rw [hr] at h; cases h; rfl
+    have hdec : ∀ t ∈ tags.toList, Decodable t := by
+      intro t ht
+      exact Classical.byContradiction fun hn => by
+        rw [hbad ⟨t, ht, hn⟩] at hrun; cases hrun
+    have hyp := hy hdec
+    rw [e1] at hrun
+    have hsp := (C08_stream_parses hyp hrun).2
+    have hbk : xBank rest = [] := by
+      have : ∀ (l : List XOp), (∀ x ∈ l, ∀ t p m o, x ≠ XOp.datablock t p m o) → xBank l = [] := by
+        intro l
+        induction l with
+        | nil => intro _; rfl
+        | cons x r ih =>
+          intro hl
+          have ihr := ih (fun y hy => hl y (by simp [hy]))
+          cases x with
+          | datablock t p m o => exact absurd rfl (hl _ (by simp) t p m o)
+          | psg a => exact ihr
+          | ym a b c => exact ihr
+          | delay a => exact ihr
+          | setLoop => exact ihr
+          | dacSetup a b c e g => exact ihr
+          | dacStart a b c e => exact ihr
+          | dacStop a => exact ihr
+      exact this rest hnb
+    have hbank' : bankOf (expected 0 xs) = pcmBlock d := by
+      rw [bankOf_expected xs hyp.valid, hxs]
+      simp [xBank, hbk]
+    refine ⟨expected 0 xs, gd3Tail tags, hsp, hbank', ?_⟩
+    intro w hw
+    rw [streamWindows_eq, hbank', windowsIn_expected, hxs] at hw
+    simp only [xStarts, List.mem_map] at hw
+    obtain ⟨q, hq, rfl⟩ := hw
+    obtain ⟨s, hs, rfl⟩ := hst q hq
+    obtain ⟨ins, _, hidx⟩ := hs
+    refine ⟨s, ⟨ins, ‹_›, hidx⟩, ?_⟩
+    exact window_in_block d hb s (List.mem_of_getElem? hidx)
+
+open MdDriver in
+/-- full_for_reachable_banks: `C08_full_partial` and `C08_pcm_windows_are_samples` apply to every
+instrument data whose wave bank is reachable in the sense of C14 (`Wave.Reach`: a new bank of
+less than 1 GiB followed by any history of `add_sample` calls on data below 1 GiB) — the allocator
+invariant is then a theorem (`C14_inv_histories`, no hypothesis on start offsets since the repair of D11), and so is the content of every window:
+the bytes a stream start addresses are the bytes requested for that sample (`ws`). -/
+theorem C08_full_for_reachable_banks (d : Data) (song : Song) (m : TagMap) (st : Stamps)
+    (rs : List Alloc.Win) (ws : List Bytes) (hr : Wave.Reach d.bank rs ws) :
+    (∀ ops, MdDriver.exportOps d song (finalTags m st) = .ok ops →
+      ((∀ t ∈ (finalTags m st).toList, Decodable t) → ∃ f, exportSong d song m st = .ok f) ∧
+      ((∃ t ∈ (finalTags m st).toList, ¬ Decodable t) → exportSong d song m st = .error .input)) ∧
+    (∀ f, exportSong d song m st = .ok f → f.length < 4294967296 →
+      dataStart f = 0x100 ∧ WellFormed f ((finalTags m st).toList.map gd3Units) ∧
+      TagsRendered ((finalTags m st).toList.map gd3Units) (finalTags m st)) ∧
+    (∀ f, exportSong d song m st = .ok f → ∃ cs tail, streamIs f cs tail ∧
+      ∀ w ∈ streamWindows cs, ∃ (i : Nat) (s : Wave.Sample), d.bank.samples[i]? = some s ∧ IsPcmSample d s ∧ ws[i]? = some w) := by
+  obtain ⟨_, hlen, hcont, _, _, _, inv⟩ := Wave.C14_inv_histories d.bank rs ws hr
+  obtain ⟨_, h2, h3⟩ := C08_full_partial d song m st rs inv
+  refine ⟨h2, h3, ?_⟩
+  intro f hf
+  obtain ⟨cs, tail, hs, _, hw⟩ := C08_pcm_windows_are_samples d song (finalTags m st) f rs inv hf
+  refine ⟨cs, tail, hs, ?_⟩
+  intro w hwm
+  obtain ⟨s, hps, rfl⟩ := hw w hwm
+  obtain ⟨ins, hty, hidx⟩ := hps
+  have hlt : (d.waveMap.lookup ins).getD 0 < ws.length := by
+    rw [hlen]
+    exact (List.getElem?_eq_some_iff.mp hidx).1
+  obtain ⟨w', hw'⟩ : ∃ w', ws[(d.waveMap.lookup ins).getD 0]? = some w' := ⟨_, List.getElem?_eq_getElem hlt⟩
+  exact ⟨_, s, hidx, ⟨ins, hty, hidx⟩, by rw [hw', hcont _ s w' hidx hw']⟩
+
+/-- the hypothesis of `C08_full_for_reachable_banks` is met by the example bank -/
+example : ∃ rs ws, Wave.Reach exPcmData.bank rs ws :=
+  ⟨_, _, Wave.Reach.add ⟨⟨0, 0, 4, 0, 0, 8000, 0, 0⟩, [1, 2, 3, 4]⟩ exPcmBank 0
+    (Wave.Reach.new 64 0 (by omega) (by omega) (by omega)) ⟨by decide⟩ rfl⟩
+
+open MdDriver in
+/-- full_for_built_banks: no hypothesis on the wave bank is left for the banks the driver builds.
+For every instrument data whose wave bank `read_song` builds — `add_sample(Tag)` calls on the new
+2 MiB bank, any tags (`rate=`, `offset=` included), any files below 1 GiB (`BankBuilt`) — every
+song, tag map and stamps, the three clauses of `C08_full_partial` hold and every stream window of a
+returned file is the window of a PCM instrument's sample header in the wave rom.  What is still
+extra w.r.t. `C08_full_statement`: WAV files of 1 GiB … 2 GiB − 1 (the reader accepts them, C14's
+bank theorems do not cover them) and the 4 GiB bound of clause 3. -/
+theorem C08_full_for_built_banks (d : Data) (song : Song) (m : TagMap) (st : Stamps) (hb : BankBuilt d.bank) :
+    (∀ e, MdDriver.exportOps d song (finalTags m st) = .error e → exportSong d song m st = .error e) ∧
+    (∀ ops, MdDriver.exportOps d song (finalTags m st) = .ok ops →
+      ((∀ t ∈ (finalTags m st).toList, Decodable t) → ∃ f, exportSong d song m st = .ok f) ∧
+      ((∃ t ∈ (finalTags m st).toList, ¬ Decodable t) → exportSong d song m st = .error .input)) ∧
+    (∀ f, exportSong d song m st = .ok f → f.length < 4294967296 →
+      dataStart f = 0x100 ∧ WellFormed f ((finalTags m st).toList.map gd3Units) ∧
+      TagsRendered ((finalTags m st).toList.map gd3Units) (finalTags m st)) ∧
+    (∀ f, exportSong d song m st = .ok f → ∃ cs tail, streamIs f cs tail ∧ bankOf cs = pcmBlock d ∧
+      ∀ w ∈ streamWindows cs, ∃ s, IsPcmSample d s ∧ w = (Wave.Sample.win s).reads d.bank.rom) := by
+  obtain ⟨rs, inv⟩ := bankBuilt_inv d.bank hb
+  obtain ⟨h1, h2, h3⟩ := C08_full_partial d song m st rs inv
+  exact ⟨h1, h2, h3, fun f hf => C08_pcm_windows_are_samples d song (finalTags m st) f rs inv hf⟩
+
+open MdDriver in
+/-- the fresh bank (a song without PCM instruments) is built -/
+example : BankBuilt ({ ins := [] } : Data).bank := BankBuilt.new
+
+/-! ### The full statement -/
+
+/-- wave banks `MDSDRV_Data::read_song` can build, files of any size -/
+inductive BankBuiltAny : Wave.Bank → Prop
+  | new : BankBuiltAny (Wave.Bank.new Tables.mds_dataWaveRom 0)
+  | add {b b' : Wave.Bank} (file : Option Bytes) (tag : List String) (idx : Nat) :
+      BankBuiltAny b → Wave.addSampleTag b file tag = .ok (b', idx) → BankBuiltAny b'
+
+open MdDriver in
+/-- The full statement of C08 over the model: `C08_full_for_built_banks` without the 1 GiB bound on
+the WAV files and without the 4 GiB bound on the exported file.  Proved of it: everything, under
+those two bounds (`C08_full_for_built_banks`).  Not proved: WAV files between 1 GiB and 2 GiB − 1
+(outside C14's `Adm`), exported files of 4 GiB and more (the 32-bit offset fields wrap; no bound on
+the number of writes of a song is proved).  Before the repair of D11 (e0c1e8f) the statement was
+false: `C08_pcm_offset_regression`. -/
+def C08_full_statement : Prop :=
+  ∀ (d : Data) (song : Song) (m : TagMap) (st : Stamps), BankBuiltAny d.bank →
+    (∀ e, MdDriver.exportOps d song (finalTags m st) = .error e → exportSong d song m st = .error e) ∧
+    (∀ ops, MdDriver.exportOps d song (finalTags m st) = .ok ops →
+      ((∀ t ∈ (finalTags m st).toList, Decodable t) → ∃ f, exportSong d song m st = .ok f) ∧
+      ((∃ t ∈ (finalTags m st).toList, ¬ Decodable t) → exportSong d song m st = .error .input)) ∧
+    (∀ f, exportSong d song m st = .ok f →
+      dataStart f = 0x100 ∧ WellFormed f ((finalTags m st).toList.map gd3Units) ∧
+      TagsRendered ((finalTags m st).toList.map gd3Units) (finalTags m st))
+
+open MdDriver in
+/-- the former D11 case in a bank of 32 bytes: a 16-byte sample added with start offset 4 (what
+`offset=4` makes of it) -/
+def exD11Data : Data :=
+  { ins := [(30, { type := Tables.mdsdrv_INS_PCM, data := [], transpose := 0 })],
+    bank := (match Wave.addSample (Wave.Bank.new 32 0) ⟨0, 4, 12, 0, 0, 8000, 0, 0⟩
+        [0x10, 0x11, 0x12, 0x13, 0x14, 0x15, 0x16, 0x17, 0x18, 0x19, 0x1a, 0x1b, 0x1c, 0x1d, 0x1e, 0x1f] with
+      | .ok (b, _) => b
+      | .error _ => Wave.Bank.new 0 0),
+    waveMap := [(30, 0)] }
+
+open MdDriver in
+/-- **The former D11 counterexample, replayed on the repaired model (regression).**  Before
+repository commit e0c1e8f the bank stored the first 12 bytes and handed out the window 4..16, so
+the export issued `dac_start(0, 4, 12, 8000)` over a 12-byte data block (the PCM clause was false;
+the corpus case `c08song … @30=pcm,a.wav,offset=4` replayed it on the real code).  Now the data
+block holds exactly the requested bytes `14 … 1f`, the export of `F @30 c r` issues
+`dac_start(0, 0, 12, 8000)`, the window lies inside the block (`BankOK`, `xsPcm`). -/
+theorem C08_pcm_offset_regression :
+    used exD11Data = 12 ∧ BankOK exD11Data ∧
+    (match MdDriver.exportOps exD11Data exPcmSong exTags with
+     | .ok ops => (ops.any fun o => match o with | .dacStart 0 0 12 8000 => true | _ => false) &&
+                  (ops.any fun o => match o with
+                    | .datablock 0 [0x14, 0x15, 0x16, 0x17, 0x18, 0x19, 0x1a, 0x1b, 0x1c, 0x1d, 0x1e, 0x1f] 32 0 0 => true
+                    | _ => false) &&
+                  !(ops.any fun o => match o with | .dacStart 0 4 12 8000 => true | _ => false)
+     | .error _ => false) = true ∧
+    xsPcm 0 [XOp.datablock 0 (pcmBlock exD11Data) 32 0, XOp.dacSetup 0 2 0 0x2a 0, XOp.dacStart 0 0 12 8000] = true := by
+  refine ⟨by decide +kernel, ?_, by decide +kernel, by decide +kernel⟩
+  exact bankOK_of_inv _ _ (Wave.addSample_step (Wave.Bank.new 32 0) [] ⟨0, 4, 12, 0, 0, 8000, 0, 0⟩
+    [0x10, 0x11, 0x12, 0x13, 0x14, 0x15, 0x16, 0x17, 0x18, 0x19, 0x1a, 0x1b, 0x1c, 0x1d, 0x1e, 0x1f] _ 0
+    (Wave.inv_new 32 0 (by decide) (by decide) (by decide)) ⟨by decide⟩ rfl).inv
 
 end Ctrmml.Vgm
